@@ -445,15 +445,29 @@ def ok_exit_blocks(fn):
 
 class Ex:
     """Expression tree node. kind: param|field|call|const|item|bin|un|agg|phi|discr|unknown|local"""
-    __slots__ = ("kind", "a", "kids")
+    __slots__ = ("kind", "a", "kids", "f")
 
-    def __init__(self, kind, a=None, kids=()):
+    def __init__(self, kind, a=None, kids=(), f=None):
         self.kind = kind
         self.a = a
         self.kids = tuple(kids)
+        self.f = f  # field names of an aggregate, parallel to kids
 
     def __repr__(self):
         return render(self)
+
+
+def _select_field(e, fname):
+    """Projection of a known aggregate: `(a, b).1` is `b` (also through a phi of aggregates)."""
+    if e.kind == "agg" and e.f and fname in e.f and len(e.f) == len(e.kids):
+        return e.kids[e.f.index(fname)]
+    if e.kind == "phi" and e.kids and all(k.kind == "agg" and k.f and fname in k.f and len(k.f) == len(k.kids) for k in e.kids):
+        sel = [k.kids[k.f.index(fname)] for k in e.kids]
+        uniq = {}
+        for x in sel:
+            uniq[render(x)] = x
+        return list(uniq.values())[0] if len(uniq) == 1 else Ex("phi", None, list(uniq.values()))
+    return None
 
 
 def render(e, depth=0):
@@ -506,7 +520,8 @@ class Exprs:
                 continue
             if isinstance(p, dict):
                 if "f" in p:
-                    e = Ex("field", p["f"], [e])
+                    sel = _select_field(e, p["f"])
+                    e = sel if sel is not None else Ex("field", p["f"], [e])
                 elif "dc" in p:
                     e = Ex("field", "@" + p["dc"], [e])
                 elif "idx" in p:
@@ -588,7 +603,9 @@ class Exprs:
             name = rv.get("variant") or ("tuple" if rv.get("tuple") else "agg")
             if rv.get("adt"):
                 name = short(rv["adt"], 1) + "::" + rv.get("variant", "")
-            return Ex("agg", name, [self.operand(o, depth, stack) for o in rv.get("ops", [])[:8]])
+            ops = rv.get("ops", [])[:12]
+            names = rv.get("fields") if rv.get("adt") else [str(i) for i in range(len(ops))] if rv.get("tuple") else None
+            return Ex("agg", name, [self.operand(o, depth, stack) for o in ops], f=tuple(names[:len(ops)]) if names else None)
         if r == "repeat":
             return Ex("agg", "repeat", [self.operand(rv["a"], depth, stack)])
         return Ex("unknown")
